@@ -42,16 +42,17 @@ REUSED = {
     "ShareCollection.tla": "specs/BlsRecovery/ShareCollection.tla",
 }
 ALL_ACTIONS = [
-    "StartDkg", "AdvanceDkg", "CloseDkg", "DeliverDkg", "JoinDkg", "GjkrDone", "SendSig", "Equivocate", "Verify", "SubmitDkg",
-    "ObserveDkg", "Resolve", "FateEvent", "FateTimeout", "Register", "RequestRelay", "AdvanceRelay", "CloseRelay", "ConfirmRelay",
+    "StartDkg", "AdvanceDkg", "CloseDkg", "DeliverDkg", "JoinDkg", "GjkrDone", "Equivocate", "Verify", "SubmitDkg",
+    "ObserveDkg", "FateEvent", "FateTimeout", "Register", "RequestRelay", "AdvanceRelay", "CloseRelay", "ConfirmRelay",
     "DedupRelay", "SendShare", "AcceptShare", "SubmitEntry", "ObserveEntry", "RelayTimeout", "ReportTimeout", "MarkStale",
     "DeliverGroupRegistered", "ArchiveOne", "SweepDone", "Stop", "Start", "Resume",
 ]
 # what the smallest exhaustive world (no faults, no duplicates, no restarts) must exercise
-QUICK_ACTIONS = ["StartDkg", "AdvanceDkg", "CloseDkg", "DeliverDkg", "JoinDkg", "GjkrDone", "SendSig", "Verify", "SubmitDkg",
-                 "ObserveDkg", "Resolve", "Register", "RequestRelay", "AdvanceRelay", "CloseRelay", "ConfirmRelay", "DedupRelay",
+QUICK_ACTIONS = ["StartDkg", "AdvanceDkg", "CloseDkg", "DeliverDkg", "JoinDkg", "GjkrDone", "Verify", "SubmitDkg",
+                 "ObserveDkg", "Register", "RequestRelay", "AdvanceRelay", "CloseRelay", "ConfirmRelay", "DedupRelay",
                  "SendShare", "AcceptShare", "SubmitEntry", "ObserveEntry"]
 NEGATIVES = {   # cfg -> property TLC must refute
+    "Neg_Fairness": "TemporalProperty",
     "Neg_Dedup": "OneDkgPerSeed", "Neg_WriteAhead": "RegistryIsStorage", "Neg_LeaveOnSeen": "NoSubmitAfterObserve",
     "Neg_InGroup": "SignsOnlyAcceptedGroup", "Neg_FateCheck": "KeepOnlyAsChainDecided", "Neg_Agreement": "KeepOnlyAsChainDecided",
 }
@@ -86,8 +87,8 @@ def _model(ctx, files):
     jobs.append(("mc", "MC_Quick", dict(timeout=900)))
     negs = ["Neg_Dedup", "Neg_WriteAhead", "Neg_LeaveOnSeen", "Neg_InGroup", "Neg_FateCheck"]
     if ctx.thorough:
-        negs.append("Neg_Agreement")
-        for c in ("MC_Dup", "MC_Stop", "MC_Bad"):
+        negs += ["Neg_Agreement", "Neg_Fairness"]
+        for c in ("MC_DupDkg", "MC_DupRelay", "MC_Stop", "MC_BadDkg", "MC_BadRelay"):
             jobs.append(("mc", c, dict(timeout=2400)))
         jobs.append(("live", "MC_Live", dict(timeout=2400)))
     for c in negs:
@@ -140,11 +141,43 @@ def _scenario_of(lines, hwm):
     return name
 
 
+def _perturbed(lines):
+    """Scenarios in which a node the scenario injected no fault into was marked inactive / failed GJKR: on this
+    harness that only happens when the machine is so slow that protocol messages miss their block windows. Such a
+    run says nothing about the life-cycle glue (C01 owns 'no honest member is punished'); it must not become a verdict."""
+    out, sc, honest_seats, done, joined, crashed = [], None, set(), set(), set(), set()
+    for no, ln in enumerate(lines, 1):
+        e = json.loads(ln)
+        ev = e.get("event")
+        if ev == "Reset":
+            sc = e.get("scenario")
+            honest = set(e["nodes"]) - set(e["bad"])
+            honest_seats = {i + 1 for i, nd in enumerate(e["seats"]) if nd in honest}
+            done, joined, crashed = set(), set(), set()
+        elif ev == "Crash":
+            crashed.add(e["node"])
+        elif ev == "GjkrDone":
+            done.add((e["round"], e["member"]))
+            if e["member"] in honest_seats and set(e["mis"]) & honest_seats:
+                out.append((no, sc, "%s: member %d marked correct member(s) %s as misbehaved" % (
+                    sc, e["member"], sorted(set(e["mis"]) & honest_seats))))
+        elif ev == "DkgExited" and e["member"] in honest_seats and (e["round"], e["member"]) not in done:
+            out.append((no, sc, "%s: GJKR of correct member %d failed" % (sc, e["member"])))
+    return out
+
+
 def _validate(ctx, go, layout, files):
     path = os.path.join(go.outdir, "trace_%s.ndjson" % layout)
     if not os.path.isfile(path):
         return 0
     lines = open(path).read().splitlines()
+    pert = _perturbed(lines)
+
+    def timing(sc, upto):
+        """a perturbation recorded in the same scenario at or before the offending line: the run is no evidence"""
+        hit = [m for (no, s2, m) in pert if s2 == sc and no <= upto]
+        if hit:
+            ctx.broken("timing-perturbed run, no verdict: %s" % "; ".join(hit[:4]))
     f = dict(files)
     f["trace.ndjson"] = path
     res = ctx.tlc(SPEC, "Trace_BeaconLifecycle", cfg=LAYOUT_CFG[layout], mode="bfs", workers=1, timeout=3000, dump_trace=False,
@@ -166,6 +199,7 @@ def _validate(ctx, go, layout, files):
             pass
         at = int(cur.group(1)) if cur else hwm
         sc = _scenario_of(lines, at)
+        timing(sc, at)
         ctx.violation("trace-inv:%s:%s" % (res.violated, sc),
                       "a recorded run of the real beacon client (scenario %s) reaches a state in which %s of the life-cycle "
                       "composition is false (around trace line %d: %s)" % (
@@ -173,6 +207,7 @@ def _validate(ctx, go, layout, files):
                       {"trace_tail": lines[max(0, at - 25):at + 1], "tlc": res.out[-3000:]})
         return 0
     sc = _scenario_of(lines, hwm)
+    timing(sc, hwm)
     bad = lines[hwm - 1] if 1 <= hwm <= len(lines) else "?"
     evname = "?"
     try:
@@ -188,8 +223,8 @@ def _validate(ctx, go, layout, files):
 
 def run(ctx):
     files = _files()
-    scen = os.environ.get("XBL_SCENARIOS") or ctx.pick("happy,fateKeep,crash",
-                                                       "happy,crash,fateOut,fateKeep,timeout,resume,twoRounds,multiSeat")
+    scen = os.environ.get("XBL_SCENARIOS") or ctx.pick("happy,fateOut2,fateKeep2,resume",
+                                                       "happy,crash,fateOut,fateOut2,fateKeep,fateKeep2,timeout,resume,twoRounds,multiSeat")
     # the real runs take about a minute of block time: start them first, model check meanwhile
     with ThreadPoolExecutor(max_workers=1) as ex:
         fut = ex.submit(ctx.gotest, PKG, "^TestVerif_XBL_Lifecycle$", FILES, None, {"XBL_SCENARIOS": scen},
@@ -204,23 +239,27 @@ def run(ctx):
     ctx.absorb(go, require_evals=len(scen.split(",")))
     rep = go.reports.get("lifecycle") or {}
     notes = rep.get("notes") or []
-    if notes:
-        # a scenario did not run to its end (no accepted result, goroutines that did not end within the bound):
-        # slowness or a harness problem -- never a verdict about the code
+    if any("still running" in x or "panicked" in x for x in notes):
+        # goroutines that did not end within the (generous) bound leave a truncated trace: no verdict
         ctx.broken("scenario(s) incomplete: %s" % "; ".join(notes))
-    cnt = rep.get("counters") or {}
-    need = ["ev_Submitted", "ev_Registered", "ev_Loaded", "ev_RelayJoined", "ev_ShareSent", "ev_EntrySubmitted", "dkg_accepted",
-            "entry_accepted", "ev_DkgJoinAttempt", "ev_RelayConfirm"]
-    if ctx.thorough:
-        need += ["ev_Forwarder", "ev_Archived", "ev_TimeoutReported", "ev_ResumeAsked", "ev_ResultObserved"]
-    missing = [k for k in need if not cnt.get(k)]
-    if missing:
-        ctx.broken("the recorded runs never showed: %s" % missing)
     n = 0
     for layout in LAYOUT_CFG:
         n += _validate(ctx, go, layout, files)
-    if not ctx.violations and n < len(scen.split(",")):
-        ctx.broken("only %d of %d scenario traces were validated" % (n, len(scen.split(","))))
+    if not ctx.violations:
+        # the runs are behaviours of the specification; were they the runs we wanted? (slowness or a harness
+        # problem -- never a verdict about the code)
+        if notes:
+            ctx.broken("scenario(s) incomplete: %s" % "; ".join(notes))
+        cnt = rep.get("counters") or {}
+        need = ["ev_Submitted", "ev_Registered", "ev_Loaded", "ev_RelayJoined", "ev_ShareSent", "ev_EntrySubmitted", "dkg_accepted",
+                "entry_accepted", "ev_DkgJoinAttempt", "ev_RelayConfirm", "ev_ResultObserved"]
+        if ctx.thorough:
+            need += ["ev_Forwarder", "ev_Archived", "ev_TimeoutReported", "ev_ResumeAsked"]
+        missing = [k for k in need if not cnt.get(k)]
+        if missing:
+            ctx.broken("the recorded runs never showed: %s" % missing)
+        if n < len(scen.split(",")):
+            ctx.broken("only %d of %d scenario traces were validated" % (n, len(scen.split(","))))
     return ctx.finish(
         level="model_checking",
         rule="Model: exhaustive TLC runs of the composition for 3 seats / 3 operators, 1 DKG round, 1 relay request (quick: no "
